@@ -1064,3 +1064,18 @@ func init() {
 		return nil, nil
 	})
 }
+
+func init() {
+	reg(rtPkg+"Stub", func(in *Interp, fn *ssa.Function, a []Value) (Value, *iPanic) {
+		iv := a[1].(IfaceV)
+		clo, ok := iv.V.(*Closure)
+		if !ok || clo == nil {
+			panic(unsupported{"rt.Stub needs a function value"})
+		}
+		in.stubs[in.argStr(a[0])] = clo
+		return nil, nil
+	})
+	reg(rtPkg+"Fresh", func(in *Interp, fn *ssa.Function, a []Value) (Value, *iPanic) {
+		return in.freshVar(in.argStr(a[0]), sym.SInt, big.NewInt(in.argInt(a[1])), big.NewInt(in.argInt(a[2]))), nil
+	})
+}
